@@ -82,7 +82,7 @@ def install_seq_models(reg):
     def rec_ctor(cls):
         def ctor(I, a, k):
             seq = k.get('seq', a[0] if a else None)
-            return SymObj(cls, seq=seq, locations=k.get('locations', []), orf=k.get('orf'),
+            return SymObj(cls, seq=seq, locations=k.get('locations', []), orf=k.get('orf'), selenocysteine=k.get('selenocysteine', []),
                           id='<unknown id>', name='<unknown name>', description='<unknown description>')
         return ctor
     reg.ctor_('DNASeqRecordWithCoordinates', rec_ctor('DNASeqRecordWithCoordinates'))
@@ -727,6 +727,10 @@ class GhostRecordDict:
     def sym_method(self, I, name, args, kwargs):
         if name in ('values', 'keys'):
             return FnView(I.e.int('n_keys'), lambda i: SymObj('KeyStub', i=i), tag=name)
+        if name in ('pop', 'popitem', 'clear'):
+            # the list under a transcript holds the records converted so far for it (from this and earlier rows): removing it loses them
+            I.e.prove('C14/cli/records-already-collected-for-a-transcript-are-never-removed', False)
+            return None
         raise Unsupported(f'vep_records.{name}')
 
 
